@@ -34,30 +34,38 @@ def _choices_threading_rule(ctx):
     r = Rule("C09", "C09.R9", "the choices mapping is threaded through every recursive builder call", floor=3,
              necessary="a select built without the mapping is not bound to its list: its labels are read from `label` while the list's items carry itextId only")
     bcls = ctx.repo.cls("pyxform.builder:SurveyElementBuilder")
-    takes = {}
-    for name, fi in bcls.methods.items():
-        a = fi.node.args
-        params = [x.arg for x in [*a.posonlyargs, *a.args, *a.kwonlyargs]]
-        if "choices" in params:
-            takes[name] = params
-    n = 0
-    for name, fi in sorted(bcls.methods.items()):
-        if name not in takes:
-            continue
-        for c in walk_own(fi.node):
-            if isinstance(c, ast.Call) and isinstance(c.func, ast.Attribute) and isinstance(c.func.value, ast.Name) and c.func.value.id == "self" and c.func.attr in takes:
-                n += 1
-                passed = next((k.value for k in c.keywords if k.arg == "choices"), None)
-                if passed is None:
-                    idx = takes[c.func.attr].index("choices") - 1  # minus self
-                    passed = c.args[idx] if 0 <= idx < len(c.args) else None
-                if passed is not None:
-                    from ..astutil import subst_locals as _sl9
-                    passed = _sl9(passed, fi.node, depth=3, keep={"choices"})
-                ok = passed is not None and any((isinstance(n_, ast.Name) and n_.id == "choices") or (isinstance(n_, ast.Attribute) and n_.attr == "choices") for n_ in ast.walk(passed))
-                r.check(ok, f"{fi.qualname} -> {c.func.attr}(choices=)", "the mapping received is the mapping handed on", fi.loc(c),
-                        why_fail=f"choices={norm(passed) if passed is not None else 'omitted'}")
-    r.check(n >= 3, "builder calls census", f"{n} recursive builder calls that accept `choices` examined", bcls.module.relpath)
+    scls = ctx.repo.cls("pyxform.survey:Survey")
+    cf = bcls.methods["create_survey_element_from_dict"]
+    MAPPING = {"l": Obj(None, {"name": "l"}, name="itemset:l"), "m": Obj(None, {"name": "m"}, name="itemset:m")}
+    seen = []
+
+    def _section(cls_):
+        def h(i, a, k, n):
+            return Obj(cls_, {"name": k.get("name"), "type": k.get("type"), "children": [], "choices": (MAPPING if k.get("type") == "survey" else None),
+                              "add_child": lambda i2, a2, k2, n2: None, "add_children": lambda i2, a2, k2, n2: None,
+                              "setvalues_by_triggering_ref": None, "setgeopoint_by_triggering_ref": None, "entity_features": None}, name=f"section:{k.get('name')}")
+        return h
+    hooks = {"fnname:_create_question_from_dict": lambda i, a, k, n: (seen.append((k.get("d", a[0] if a else {}).get("name"), k.get("choices"))), Obj(None, {"name": "q"}, name="q"))[1],
+             "new:GroupedSection": _section(ctx.repo.cls("pyxform.section:GroupedSection")), "new:RepeatingSection": _section(ctx.repo.cls("pyxform.section:RepeatingSection")), "new:Survey": _section(scls)}
+    sel = lambda nm: {"type": "select one", "name": nm, "itemset": "l", "list_name": "l"}
+    FORMS = {
+        "select at the top level": ([sel("s0")], ["s0"]),
+        "select in a group in a repeat": ([{"type": "group", "name": "g", "children": [{"type": "repeat", "name": "r", "children": [sel("s1"), {"type": "text", "name": "t"}]}]}], ["s1", "t"]),
+        "select in a loop template (one copy per column)": ([{"type": "loop", "name": "lp", "columns": [{"name": "x", "label": "X"}, {"name": "y", "label": "Y"}], "children": [sel("s2_%(name)s")]}], ["s2_x", "s2_y"]),
+        "select in a group inside a loop template": ([{"type": "loop", "name": "lp", "columns": [{"name": "x", "label": "X"}], "children": [{"type": "group", "name": "g_%(name)s", "children": [sel("s3")]}]}], ["s3"]),
+    }
+    for fname, (kids, want_names) in FORMS.items():
+        seen.clear()
+        it = ctx.interp("C09.R9", hooks=hooks, inline=lambda fi: True)
+        it.reset([])
+        b = Obj(bcls, {}, name="builder")
+        it.call_function(bcls.methods["__init__"], [b], {}, None, None)
+        try:
+            it.call_function(cf, [b], {"d": {"type": "survey", "name": "data", "choices": {"l": [{"name": "a", "label": "A"}]}, "children": kids}}, None, cf.node)
+            got = [(nm, ch is MAPPING) for nm, ch in seen]
+        except Raised as e:
+            got = f"raises {e.exc_name}{e.exc_args}"
+        r.check(got == [(nm, True) for nm in want_names], f"builder:choices mapping[{fname}]", "every question is built with the survey's own choices mapping, wherever it sits", cf.loc(), why_fail=repr(got)[:200])
     return r
 
 
